@@ -25,6 +25,7 @@ mod c17;
 mod stdprog;
 mod roblox;
 mod clone;
+mod roact;
 
 use std::collections::BTreeMap;
 use std::io::Write;
@@ -132,6 +133,7 @@ fn main() {
         "stdprog" => stdprog::run(&args, &mut out),
         "roblox" => roblox::run(&args, &mut out),
         "clone" => clone::run(&args, &mut out),
+        "roact" => roact::run(&args, &mut out),
         other => {
             eprintln!("unknown group {other}");
             std::process::exit(2);
